@@ -432,6 +432,19 @@ Proof.
       apply all_same_cuts_ok. apply (gops_all_same [o]); simpl; auto.
 Qed.
 
+(* ---- DWriteFail: a short write is an append of the bytes that were stored *)
+Lemma do_writefail_good : forall s0 w wid bs j s1 oc,
+  Inv s0 w -> do_writefail s0 wid bs j = (s1, oc) -> do_good s0 w (DWriteFail wid bs j) s1 oc.
+Proof.
+  intros s0 w wid bs j s1 oc HI Hdo Hleg.
+  unfold do_writefail in Hdo.
+  destruct (do_write s0 wid (firstn j bs)) as [s' r] eqn:Ew.
+  assert (Es : s' = s1) by (inversion Hdo; reflexivity). subst s'.
+  apply (do_write_good s0 w wid (firstn j bs) s1 r HI Ew).
+  (* the side conditions do not depend on which of the two operations it is *)
+  exact Hleg.
+Qed.
+
 (* ---- acquireWriter *)
 Definition new_file_ops (k : N) : list fsop := [OWrite true FCounter 0 (le_bytes 4 k); OCreate (FData k)].
 
@@ -846,6 +859,61 @@ Proof.
     exists es2. simpl.
     split; [exact Hob|]. split; [exact Hfb|]. split; [eapply commit_keep; eauto|].
     split; [exact Hcb|]. intros Hiw. rewrite Hpb. apply Hsy. exact Hiw.
+Qed.
+
+(* ---- DCommitTF: the index Truncate failed, the pointer is committed in memory only *)
+Lemma do_commit_tf_good : forall s0 w wid e s1 oc,
+  Inv s0 w -> do_commit_tf s0 wid e = (s1, oc) -> do_good s0 w (DCommitTF wid e) s1 oc.
+Proof.
+  intros s0 w wid e s1 oc HI Hdo Hleg.
+  pose proof HI as [Hhead Hidx Hmem Hwr Hwidx Hnone].
+  destruct (legal_dir _ _ _ _ Hleg) as [fs [ib [Hfs Hib]]].
+  unfold do_commit_tf in Hdo.
+  destruct (assoc (s_ws s0) wid) as [x|] eqn:Ex.
+  2:{ inversion Hdo; subst. exact (do_good_noop _ _ _ _ HI Hleg). }
+  assert (Hlazy : w_mode x = MLazy -> do_good s0 w (DCommitTF wid e) s1 oc).
+  { intros Hm. rewrite Hm in Hdo. intros Hl. exact (do_commit_good s0 w wid e 0%N s1 oc HI Hdo Hl). }
+  destruct (w_mode x) eqn:Em; try (exact (Hlazy eq_refl Hleg)); clear Hlazy.
+  - destruct (N.eqb (w_len x) 0).
+    { inversion Hdo; subst. exact (do_good_noop _ _ _ _ HI Hleg). }
+    destruct (negb (w_prev x =? 0)%Z && negb (N.leb (real_cap s0) (w_fsize x)) && (e <? w_prev x)%Z).
+    { inversion Hdo; subst. exact (do_good_noop _ _ _ _ HI Hleg). }
+    destruct (negb (w_start x <? e)%Z).
+    { inversion Hdo; subst. exact (do_good_noop _ _ _ _ HI Hleg). }
+    remember (mkPtr (w_start x) e (w_file x) (u32 (w_off x)) (u32 (w_len x))) as p eqn:Hp.
+    destruct (if (w_prev x =? 0)%Z then idx_insert (s_ptrs s0) p else idx_update (s_ptrs s0) p)
+      as [[r ps] at_] eqn:Eidx.
+    destruct r; try (inversion Hdo; subst; exact (do_good_noop _ _ _ _ HI Hleg)).
+    assert (Hin : forall q, In q ps -> q = p \/ In q (s_ptrs s0)).
+    { intros q Hq. destruct (w_prev x =? 0)%Z; [eapply idx_insert_in|eapply idx_update_in]; eauto. }
+    assert (Hpin : inrb (s_fs s0) p = true).
+    { destruct (Hwr _ _ Ex) as [data [Hd Hle]]. unfold inrb. subst p. simpl. rewrite Hd.
+      apply N.leb_le. pose proof (u32_le (w_off x)). pose proof (u32_le (w_len x)). lia. }
+    inversion Hdo; subst s1 oc. clear Hdo.
+    exists []. simpl. split; [reflexivity|]. split; [reflexivity|]. split; [|split; [apply cuts_ok_nil|discriminate]].
+    constructor; simpl; auto; try congruence.
+    + rewrite Hhead. reflexivity.
+    + unfold mem_inr. simpl. intros q Hq. destruct (Hin q Hq) as [->|Hq']; auto.
+  - destruct (N.eqb (w_len x) 0).
+    { inversion Hdo; subst. exact (do_good_noop _ _ _ _ HI Hleg). }
+    destruct (negb (w_prev x =? 0)%Z && negb (N.leb (real_cap s0) (w_fsize x)) && (e <? w_prev x)%Z).
+    { inversion Hdo; subst. exact (do_good_noop _ _ _ _ HI Hleg). }
+    destruct (negb (w_start x <? e)%Z).
+    { inversion Hdo; subst. exact (do_good_noop _ _ _ _ HI Hleg). }
+    remember (mkPtr (w_start x) e (w_file x) (u32 (w_off x)) (u32 (w_len x))) as p eqn:Hp.
+    destruct (if (w_prev x =? 0)%Z then idx_insert (s_ptrs s0) p else idx_update (s_ptrs s0) p)
+      as [[r ps] at_] eqn:Eidx.
+    destruct r; try (inversion Hdo; subst; exact (do_good_noop _ _ _ _ HI Hleg)).
+    assert (Hin : forall q, In q ps -> q = p \/ In q (s_ptrs s0)).
+    { intros q Hq. destruct (w_prev x =? 0)%Z; [eapply idx_insert_in|eapply idx_update_in]; eauto. }
+    assert (Hpin : inrb (s_fs s0) p = true).
+    { destruct (Hwr _ _ Ex) as [data [Hd Hle]]. unfold inrb. subst p. simpl. rewrite Hd.
+      apply N.leb_le. pose proof (u32_le (w_off x)). pose proof (u32_le (w_len x)). lia. }
+    inversion Hdo; subst s1 oc. clear Hdo.
+    exists []. simpl. split; [reflexivity|]. split; [reflexivity|]. split; [|split; [apply cuts_ok_nil|discriminate]].
+    constructor; simpl; auto; try congruence.
+    + rewrite Hhead. reflexivity.
+    + unfold mem_inr. simpl. intros q Hq. destruct (Hin q Hq) as [->|Hq']; auto.
 Qed.
 
 (* ---- DDelete *)
